@@ -830,7 +830,10 @@ class IncludeNode(DirectiveNode):
             include_path = path_obj.path
             is_system_include = path_obj.system
 
-        this_path = os.path.dirname(kwargs["filename"])
+        this_path = kwargs.get(
+            "directory",
+            os.path.dirname(kwargs["filename"]),
+        )
         include_file = kwargs["platform"].find_include_file(
             include_path,
             this_path,
